@@ -172,6 +172,56 @@ def check_time_named(case):
     return fails[:3]
 
 
+LAG_CASES = [{'first': 4.0, 'later': 0.5, 'calls': [10.0], 'then': 5.0}, {'first': 3.0, 'later': 1.0, 'calls': [2.0, 2.0], 'then': 3.0},
+             {'first': 2.0, 'later': 0.25, 'calls': [1.5], 'then': 1.5}]
+
+
+def check_lagging_shrink(case):
+    """C02 inside the region of the recorded finding F-C03-shrink (a process left behind the clock by an unforced run_for answers a
+    timestep shorter than its lag): whatever the clock does there, the process is handed timesteps that add up to the time it has been
+    simulated for once update() has completed it -- the timestep handed is the length of the interval covered"""
+    from vivarium.core.engine import Engine
+    from vivarium.core.process import Process
+    handed = []
+
+    class Adaptive(Process):
+        defaults = {}
+
+        def ports_schema(self):
+            return {'s': {'x': {'_default': 0.0}}, 'ctl': {'dt': {'_default': case['first']}}}
+
+        def calculate_timestep(self, states):
+            return states['ctl']['dt']
+
+        def next_update(self, timestep, states):
+            handed.append(timestep)
+            return {'s': {'x': timestep}}
+
+    class Controller(Process):
+        defaults = {'timestep': 1.0}
+
+        def ports_schema(self):
+            return {'ctl': {'dt': {'_default': case['first'], '_updater': 'set'}}}
+
+        def next_update(self, timestep, states):
+            return {}
+    try:
+        eng = Engine(processes={'adaptive': Adaptive(), 'controller': Controller()},
+                     topology={'adaptive': {'s': ('s',), 'ctl': ('ctl',)}, 'controller': {'ctl': ('ctl',)}}, display_info=False, emitter='null')
+        for dt in case['calls']:
+            eng.run_for(dt)
+        eng.state.get_path(('ctl', 'dt')).value = case['later']
+        eng.update(case['then'])
+    except Exception as e:
+        return ['lagging process with a shrinking timestep raised %s: %s' % (type(e).__name__, str(e)[:160])]
+    total = sum(case['calls']) + case['then']
+    x = eng.state.get_value()['s']['x']
+    if abs(sum(handed) - total) > 1e-9 or abs(x - total) > 1e-9:
+        return ['the process was handed the timesteps %s (sum %s) and advanced its variable by %s, but %s time units were simulated when '
+                'update() returned' % (handed, sum(handed), x, total)]
+    return []
+
+
 def main():
     ap = argparse.ArgumentParser()
     ap.add_argument('--prop', required=True)
@@ -193,6 +243,10 @@ def main():
             same = l1 == l2 and (e1 is None) == (e2 is None)
             L.emit_result({'status': 'not-reproduced' if same else 'reproduced',
                            'failed': [] if same else ['serial and parallel runs hand over different timesteps']})
+            return
+        if 'lag' in scn:
+            fails = check_lagging_shrink(scn['lag'])
+            L.emit_result({'status': 'reproduced' if fails else 'not-reproduced', 'failed': fails[:5]})
             return
         if 'time_named' in scn:
             fails = check_time_named(scn['time_named'])
@@ -285,6 +339,14 @@ def main():
                 rp = L.write_replay(a.out, prop, 'par%d' % done, scn2, fails, extra={'driver': 'bounded.sched', 'prop': prop})
                 failures.append({'id': '%s.bounded.parallel#%d: %s' % (prop, done, fails[0][:200]), 'replay': rp, 'failed': fails[:3]})
                 break
+    if prop == 'C02' and len(failures) < 3:
+        for ci, case in enumerate(LAG_CASES):
+            evaluations += 1
+            nontrivial.add('lag-%d' % ci)
+            fails = check_lagging_shrink(case)
+            if fails:
+                rp = L.write_replay(a.out, prop, 'lag%d' % ci, {'lag': case}, fails, extra={'driver': 'bounded.sched', 'prop': prop})
+                failures.append({'id': '%s.bounded.lagging-shrink#%d: %s' % (prop, ci, fails[0][:220]), 'replay': rp, 'failed': fails[:3]})
     if prop in ('C03', 'C12') and len(failures) < 3:
         for ci, case in enumerate(TIME_NAMED_CASES):
             evaluations += 1
